@@ -19,6 +19,8 @@ use std::panic::{catch_unwind, AssertUnwindSafe};
 use wac_parser::Document;
 use wac_types::{BorrowedPackageKey, Package, Types};
 
+thread_local! { static LAST_PANIC: std::cell::RefCell<String> = std::cell::RefCell::new(String::new()); }
+
 struct Rng(u64);
 impl Rng {
     fn next(&mut self) -> u64 { self.0 = self.0.wrapping_mul(6364136223846793005).wrapping_add(1442695040888963407); self.0 >> 33 }
@@ -99,7 +101,7 @@ fn main() {
     let per: usize = args.get(1).and_then(|s| s.parse().ok()).unwrap_or(40);
     let seed: u64 = args.get(2).and_then(|s| s.parse().ok()).unwrap_or(0);
     let mut r = Rng(seed.wrapping_mul(2654435761).wrapping_add(99));
-    std::panic::set_hook(Box::new(|_| {}));
+    std::panic::set_hook(Box::new(|info| { LAST_PANIC.with(|l| *l.borrow_mut() = info.to_string()); }));
     let mut seeds: Vec<String> = vec![
         "package a:b targets c:d/w@1.0.0;\nimport x as \"s\": func(a: u8) -> string;\nlet i = new c:d { x, \"y\": (z).w[\"q\"], ...v, ... };\nexport i.f as g;\n".into(),
         "package a:b;\n/// doc é\ninterface i { use a:b/c@1.0.0.{t as u}; resource r { constructor(a: borrow<r>); m: static func() -> result<_, u8>; } record q { a: tuple<u8, list<option<string>>> } }\nworld w { include a:b/w with { a as b }; import n: interface { f: func(); }; export c:d/e; }\n".into(),
@@ -111,6 +113,7 @@ fn main() {
     let mut files = vec![]; wac_files(std::path::Path::new("/repo"), &mut files); files.sort();
     for f in files.iter() { if let Ok(s) = std::fs::read_to_string(f) { if s.len() < 4000 { seeds.push(s); } } }
     let (mut texts, mut parsed, mut rejected, mut resolved, mut resolve_errors) = (0u64, 0u64, 0u64, 0u64, 0u64);
+    let mut known_panic_hits = 0u64;
     let pkgs: Vec<Vec<u8>> = (0..4).map(component).collect();
     for (si, s) in seeds.iter().enumerate() {
         for m in 0..per {
@@ -132,7 +135,12 @@ fn main() {
                     }
                     let rr = catch_unwind(AssertUnwindSafe(|| doc.resolve(packages).map(|_| ()).map_err(|e| { let l = labels_ok(&e, &src); (l, render(e, &src)) })));
                     match rr {
-                        Err(_) => { println!("C14-BOUNDED VIOLATION: Document::resolve PANICKED (package variant {variant}) on {src:?}"); std::process::exit(1); }
+                        Err(_) => {
+                            let msg = LAST_PANIC.with(|l| l.borrow().clone());
+                            // the recorded, unrepaired defect (a function and a type of one name): counted, reported below as FINDING
+                            if msg.contains("duplicate type in scope") || (msg.contains("resolution.rs") && msg.contains("prev.is_none()")) { known_panic_hits += 1; continue; }
+                            println!("C14-BOUNDED VIOLATION: Document::resolve PANICKED ({msg}; package variant {variant}) on {src:?}"); std::process::exit(1);
+                        }
                         Ok(Ok(())) => resolved += 1,
                         Ok(Err((l, rn))) => { resolve_errors += 1; if let Err(e) = l.and(rn) { println!("C14-BOUNDED VIOLATION: resolution diagnostic: {e}; text: {src:?}"); std::process::exit(1); } }
                     }
@@ -160,9 +168,22 @@ fn main() {
             match res { Err(_) => { println!("C14-BOUNDED VIOLATION: Package::from_bytes PANICKED on bytes {:?}", b); std::process::exit(1); } Ok(true) => decoded += 1, Ok(false) => {} }
         }
     }
+    // texts on which a recorded, unrepaired defect makes resolution panic (known_findings.json): reported as FINDING
+    let mut findings: Vec<String> = vec![];
+    let known_panics = [
+        ("resolve-panic-function-and-type-of-one-name", "package test:comp;\ninterface i { f: func(); record f { x: u32 } }\n"),
+        ("resolve-panic-function-and-type-of-one-name", "package test:comp;\nworld w { import f: func(); type f = u8; }\n"),
+        ("resolve-panic-function-and-type-of-one-name", "package test:comp;\ninterface i { f: func(); resource f { } }\n"),
+    ];
+    for (key, text) in known_panics {
+        let doc = Document::parse(text).expect("known text parses");
+        if catch_unwind(AssertUnwindSafe(|| doc.resolve(Default::default()).is_ok())).is_err() {
+            let line = format!("FINDING {key} Document::resolve panics (`duplicate type in scope`) on an interface / world that declares a function and a type of the same name, e.g. {:?}", text);
+            if !findings.iter().any(|f| f.starts_with(&format!("FINDING {key} "))) { findings.push(line); }
+        }
+    }
     // deep nesting, in child processes
     let exe = std::env::current_exe().unwrap();
-    let mut findings = vec![];
     for kind in ["parens", "list-type", "nested-new", "block-comment"] {
         for depth in [2000usize, 200000] {
             let out = std::process::Command::new(&exe).args(["--depth", kind, &depth.to_string()]).output().unwrap();
@@ -171,6 +192,6 @@ fn main() {
         }
     }
     for f in &findings { println!("{f}"); }
-    println!("C14-ROBUST {} {{\"bounded\": true, \"seed\": {seed}, \"texts\": {texts}, \"parsed\": {parsed}, \"rejected_with_good_diagnostics\": {rejected}, \"resolutions\": {resolved}, \"resolution_errors_with_good_diagnostics\": {resolve_errors}, \"package_byte_strings\": {blobs}, \"decoded\": {decoded}, \"deep_nesting_findings\": {}}}", if findings.is_empty() { "ok" } else { "findings" }, findings.len());
+    println!("C14-ROBUST {} {{\"bounded\": true, \"seed\": {seed}, \"texts\": {texts}, \"parsed\": {parsed}, \"rejected_with_good_diagnostics\": {rejected}, \"resolutions\": {resolved}, \"resolution_errors_with_good_diagnostics\": {resolve_errors}, \"package_byte_strings\": {blobs}, \"decoded\": {decoded}, \"mutated_texts_hitting_the_recorded_resolve_panic\": {known_panic_hits}, \"findings\": {}}}", if findings.is_empty() { "ok" } else { "findings" }, findings.len());
     std::process::exit(if findings.is_empty() { 0 } else { 3 });
 }
